@@ -414,7 +414,12 @@ static void real_writer(int variant, val *ops)
 			r = arg == 0 ? archive_write_set_format_ustar(a) : arg == 1 ? archive_write_set_format_pax_restricted(a) :
 			    arg == 2 ? archive_write_set_format_cpio_newc(a) : archive_write_set_format_zip(a);
 			break;
-		case 1: r = archive_write_add_filter_gzip(a); break;
+		case 1:
+			/* arg 1: a filter that cannot be opened (the client is opened first, then the filter fails);
+			 * arg 2: a second kind of compressor in the chain */
+			r = arg == 1 ? archive_write_add_filter_program(a, "/nonexistent/verif-no-such-program") :
+			    arg == 2 ? archive_write_add_filter_zstd(a) : archive_write_add_filter_gzip(a);
+			break;
 		case 2: r = archive_write_set_options(a, arg == 0 ? "" : arg == 1 ? "gzip:compression-level=1" : "bogus_option=1"); break;
 		case 3: r = archive_write_open_memory(a, mem, cap, &used); break;
 		case 4:
